@@ -25,7 +25,7 @@ ASSUMPTIONS = ["allowances as stated: reg_eps s^2 w_i (w = exact projection weig
                "enumeration), tau_c |J_i| s (1+c) for row i for CAGrad with tau_c = 3e-4 (float64) / 5e-3 (float32)",
                "slop = rounding of the product and of the output: 64 eps s^2 |w|_1 + C03's output tolerance times s"]
 SHAPES = [(m, n) for m in (1, 2, 3) for n in (1, 2, 3)]
-HOSTILE = {"quick": 2400, "thorough": 160000}
+HOSTILE = {"quick": 2400, "thorough": 480000}
 # CAGrad: "up to the conic solver's tolerance".  CLARABEL stops at ~1e-8 on the objective, i.e. ~1e-4 on a flat minimiser; at c = 1 the
 # guarantee is tight (inner products may be exactly 0).  Worst observed over 100 000 hostile float64 matrices: 2.7e-5 s^2.
 TAU_C = {"float64": 3e-4, "float32": 5e-3}
@@ -47,7 +47,7 @@ def shards(tier, seed):
     out += split_shards("hostile", HOSTILE[tier], 4 if tier == "quick" else 8)
     # CAGrad on "small-gradient objectives": row norms spread over up to three decades (a nearly converged auxiliary loss next to a
     # large one): the small rows must not be opposed either
-    out += split_shards("cagrad_small_rows", 480 if tier == "quick" else 24000, 4 if tier == "quick" else 8)
+    out += split_shards("cagrad_small_rows", 480 if tier == "quick" else 100000, 4 if tier == "quick" else 8)
     return out
 
 
